@@ -86,7 +86,9 @@ func (ip *IndexPos) findOffset(newPos int64) (int64, error) {
 	}
 
 	// Only invalidate cache if new chunk is different from old one (avoid re-decompressing all-0 regions)
-	if newChunk.ID != ip.curChunkID {
+	// The cached data is also dropped if it doesn't have the size of the new chunk, the size check in
+	// loadChunk() has only covered the index entry it was loaded for
+	if newChunk.ID != ip.curChunkID || (ip.curChunk != nil && newChunk.Size != uint64(len(ip.curChunk))) {
 		ip.curChunk = nil // next read attempt will call loadChunk()
 	}
 	// BELOW HERE, WE HAVE UPDATED THE DATA AND MUST NOT ERROR
